@@ -659,7 +659,15 @@ def b_all(it, a, k):
     return b_any(it, a, k, False)
 
 
+class SZip:
+    def __init__(self, lists):
+        self.lists = lists
+
+
 def b_zip(it, a, k):
+    if any(isinstance(x, SList) for x in a):
+        from . import slist as SL
+        return SZip([SL.as_slist(it, x) for x in a])
     lists = [it.iterate(x) for x in a]
     return list(zip(*lists))
 
